@@ -26,6 +26,8 @@ type brk struct {
 	isLoop bool
 	used   bool
 	inMap  bool // map range: no break/continue to it from inside (order sensitivity)
+	fdBrk  int  // len(gen.frames) where a break to it lands (0 = not recorded)
+	fdCont int  // ... where a continue to it lands
 }
 
 type gotoLbl struct {
@@ -34,6 +36,7 @@ type gotoLbl struct {
 	bound   int
 	used    bool
 	depthAt int // len(gen.brks) where declared (informative)
+	fd      int // len(gen.frames) at the label (0 = not recorded)
 }
 
 type gen struct {
@@ -51,6 +54,10 @@ type gen struct {
 	avoid      avoidSet
 	feat       map[string]int
 	noEmit     int // >0: inside a map range body (order-insensitive): no emit, no jumps out
+	// inject: statements the next block() call places right after its locals (used to force a nest of scopes
+	// around a jump); injectSkip = number of block() calls to let pass first
+	inject     func() []piece
+	injectSkip int
 }
 
 // piece: rendered statement(s)
@@ -232,6 +239,15 @@ func (g *gen) block(d int, o bodyOpt) (nloc int, ps []piece) {
 		prePieces = o.pre()
 		ps = append(ps, prePieces...)
 	}
+	if g.inject != nil {
+		if g.injectSkip > 0 {
+			g.injectSkip--
+		} else {
+			inj := g.inject
+			g.inject = nil
+			ps = append(ps, inj()...)
+		}
+	}
 	n := o.minStmts + g.r.Intn(3)
 	if d >= g.maxDepth {
 		n = o.minStmts + g.r.Intn(2)
@@ -302,6 +318,11 @@ func (g *gen) stmt(d int) (piece, bool) {
 				continue
 			}
 			return g.switchStmt(d), false
+		case x >= 67 && x < 69 && d <= 2 && g.noEmit == 0 && g.inject == nil:
+			if deep {
+				continue
+			}
+			return g.deepJump(d), false
 		case x < 69:
 			if deep {
 				continue
@@ -416,6 +437,7 @@ func (g *gen) jump(uncond bool) (piece, bool) {
 	if isCont {
 		kw, ck = "continue", "SContinue"
 	}
+	g.noteJump(target, isCont)
 	var gs, cs string
 	if labelled {
 		target.used = true
@@ -454,6 +476,7 @@ func (g *gen) forStmt(d int) piece {
 	case 0: // three-clause with header variable (its own env frame)
 		g.feat["for3"]++
 		m := g.mark()
+		b.fdBrk, b.fdCont = len(g.frames), len(g.frames)+1
 		g.pushFrame()
 		i := g.declare("i", false)
 		g.brks = append(g.brks, b)
@@ -472,6 +495,7 @@ func (g *gen) forStmt(d int) piece {
 		g.feat["for-cond"]++
 		m := g.mark()
 		g.pushFrame()
+		b.fdBrk, b.fdCont = len(g.frames), len(g.frames)
 		c := g.declare("c", false)
 		declc := fmt.Sprintf("(SAssign 0 %d %s)", c.idx, coqZ(0))
 		condc := fmt.Sprintf("(ELt %s %s)", g.coqVar(c), coqZ(bound))
@@ -493,6 +517,7 @@ func (g *gen) forStmt(d int) piece {
 		g.feat["for-inf"]++
 		m := g.mark()
 		g.pushFrame()
+		b.fdBrk, b.fdCont = len(g.frames), len(g.frames)
 		c := g.declare("c", false)
 		declc := fmt.Sprintf("(SAssign 0 %d %s)", c.idx, coqZ(0))
 		g.brks = append(g.brks, b)
@@ -514,19 +539,151 @@ func (g *gen) forStmt(d int) piece {
 	}
 }
 
+// noteJump records (evidence) how many variable-declaring scopes (runtime env frames) a break/continue leaves
+func (g *gen) noteJump(target *brk, isCont bool) {
+	fd, kw := target.fdBrk, "break"
+	if isCont {
+		fd, kw = target.fdCont, "continue"
+	}
+	if fd > 0 {
+		g.feat[fmt.Sprintf("jump-frames:%s:%d", kw, len(g.frames)-fd)]++
+	}
+}
+
+// always-true condition that is not a constant expression
+func (g *gen) trueCond() ex {
+	v := g.pick(g.readable)
+	return ex{fmt.Sprintf("%s == %s", v.name, v.name), fmt.Sprintf("(EEq %s %s)", g.coqVar(v), g.coqVar(v))}
+}
+
+// jumpTo: break/continue to the given construct, labelled when it is not the innermost candidate (or at random)
+func (g *gen) jumpTo(target *brk, c ex) piece {
+	isCont := target.isLoop && g.r.Chance(2, 5)
+	innermost := false
+	for i := len(g.brks) - 1; i >= 0; i-- {
+		if isCont && !g.brks[i].isLoop {
+			continue
+		}
+		innermost = g.brks[i] == target
+		break
+	}
+	kw, ck := "break", "SBreak"
+	if isCont {
+		kw, ck = "continue", "SContinue"
+	}
+	g.noteJump(target, isCont)
+	gs, cs := kw, fmt.Sprintf("(%s None)", ck)
+	if !innermost || g.r.Chance(1, 3) {
+		target.used = true
+		gs = fmt.Sprintf("%s L%d", kw, target.id)
+		cs = fmt.Sprintf("(%s (Some %d))", ck, target.id)
+		g.feat[kw+"-label"]++
+	} else {
+		g.feat[kw]++
+	}
+	return piece{[]string{fmt.Sprintf("if %s {", c.g), "\t" + gs, "}"}, fmt.Sprintf("(SIf %s 0 %s false SSkip)", c.c, cs)}
+}
+
+// deepJump: a jump target (3-clause for, cond-only/infinite for, switch, goto label) around a nest of 0..6 scopes
+// (plain blocks, if branches, inner loops, switch clauses), most of which declare variables, with a jump to that
+// target in the innermost position: break / continue (labelled when an inner loop or switch is crossed) / goto
+// leaving 0..8 runtime env frames at once.
+func (g *gen) deepJump(d int) piece {
+	g.feat["deep-jump"]++
+	layers := g.r.Intn(7)
+	var target *brk
+	var lbl *gotoLbl
+	var build func(k int) []piece
+	layer := func(k int) []piece {
+		// one scope around build(k+1)
+		g.inject = func() []piece { return build(k + 1) }
+		g.injectSkip = 0
+		var p piece
+		switch x := g.r.Intn(20); {
+		case x < 9:
+			nl := 0
+			if g.r.Chance(4, 5) {
+				nl = 1 + g.r.Intn(2)
+			}
+			nloc, ps := g.block(d+1, bodyOpt{nlocals: nl, minStmts: 0})
+			p = piece{wrapBlock(joinGo(ps)), fmt.Sprintf("(SBlock %s)", g.blockCoq(nloc, ps))}
+		case x < 13:
+			g.injectSkip = g.r.Intn(2) // then or else branch
+			p = g.ifStmt(d + 1)
+		case x < 18:
+			p = g.forStmt(d + 1)
+		default:
+			g.injectSkip = g.r.Intn(2)
+			p = g.switchStmt(d + 1)
+		}
+		out := []piece{p}
+		if g.inject != nil {
+			// the construct had no such body (if without else, one-clause switch): use a plain block instead
+			g.injectSkip = 0
+			nloc, ps := g.block(d+1, bodyOpt{nlocals: 1, minStmts: 0})
+			out = append(out, piece{wrapBlock(joinGo(ps)), fmt.Sprintf("(SBlock %s)", g.blockCoq(nloc, ps))})
+		}
+		return out
+	}
+	build = func(k int) []piece {
+		if k == 0 && lbl == nil {
+			target = g.brks[len(g.brks)-1] // the construct whose body we are in
+		}
+		if k < layers {
+			return layer(k)
+		}
+		if lbl != nil {
+			return []piece{g.gotoGuard(lbl)}
+		}
+		c := g.trueCond()
+		if g.r.Chance(1, 3) {
+			c = g.boolExpr(0)
+		}
+		return []piece{g.jumpTo(target, c)}
+	}
+	switch x := g.r.Intn(10); {
+	case x < 5:
+		g.inject = func() []piece { return build(0) }
+		g.injectSkip = 0
+		return g.forStmt(d)
+	case x < 7:
+		g.inject = func() []piece { return build(0) }
+		g.injectSkip = 0
+		p := g.switchStmt(d)
+		g.inject = nil
+		return p
+	default:
+		return g.gotoLoopWith(d, 2+g.r.Intn(2), func(lb *gotoLbl) []piece {
+			lbl = lb
+			return build(0)
+		})
+	}
+}
+
 // backward goto: { c := 0; L: c++; body...; if c < N { goto L } }  (the guard may also sit deeper inside body)
 func (g *gen) gotoLoop(d int) piece {
+	return g.gotoLoopWith(d, 1+g.r.Intn(3), nil)
+}
+
+// gotoLoopWith: body (when not nil) produces the first statements after the label's counter increment
+func (g *gen) gotoLoopWith(d int, bound int, body func(lb *gotoLbl) []piece) piece {
 	g.feat["goto"]++
 	m := g.mark()
 	g.pushFrame()
 	c := g.declare("c", false)
 	declc := fmt.Sprintf("(SAssign 0 %d %s)", c.idx, coqZ(0))
-	lb := &gotoLbl{id: g.id(), counter: c, bound: 1 + g.r.Intn(3)}
+	lb := &gotoLbl{id: g.id(), counter: c, bound: bound, fd: len(g.frames)}
 	g.gotos = append(g.gotos, lb)
 	saved := g.brks
 	// a goto may leave enclosing loops/switches of *this* block only; constructs outside stay visible for break/continue
 	var ps []piece
+	if body != nil {
+		ps = append(ps, body(lb)...)
+	}
 	n := 1 + g.r.Intn(3)
+	if body != nil {
+		n = g.r.Intn(2)
+	}
 	for i := 0; i < n && g.budget > 0; i++ {
 		p, stop := g.stmt(d + 1)
 		ps = append(ps, p)
@@ -548,13 +705,16 @@ func (g *gen) gotoLoop(d int) piece {
 
 func (g *gen) gotoGuard(lb *gotoLbl) piece {
 	lb.used = true
+	if lb.fd > 0 {
+		g.feat[fmt.Sprintf("jump-frames:goto:%d", len(g.frames)-lb.fd)]++
+	}
 	return piece{[]string{fmt.Sprintf("if %s < %d {", lb.counter.name, lb.bound), fmt.Sprintf("\tgoto G%d", lb.id), "}"},
 		fmt.Sprintf("(SIf (ELt %s %s) 0 (SGoto %d) false SSkip)", g.coqVar(lb.counter), coqZ(lb.bound), lb.id)}
 }
 
 func (g *gen) switchStmt(d int) piece {
 	g.feat["switch"]++
-	b := &brk{id: g.id(), isLoop: false}
+	b := &brk{id: g.id(), isLoop: false, fdBrk: len(g.frames)}
 	tagged := g.r.Chance(2, 3)
 	var tag ex
 	if tagged {
@@ -671,7 +831,9 @@ func (g *gen) extStmt(d int) (piece, bool) {
 	if g.noEmit > 0 {
 		return piece{}, false
 	}
-	switch g.r.Intn(13) {
+	switch g.r.Intn(15) {
+	case 13, 14:
+		return g.typedSwitch(d)
 	case 0: // range over slice / array with key and value
 		g.feat["range-slice"]++
 		b := &brk{id: g.id(), isLoop: true}
@@ -1008,7 +1170,7 @@ const nres = 4
 // avoidSet: input classes of open findings (true = defect present, avoid the class)
 type avoidSet struct{ topGoto, rangeKey, selectConst, rangeAssign, selectOk, goArgs bool }
 
-func genProgram(r *vh.Rng, maxDepth int, ext bool, avoid avoidSet) *program {
+func genProgram(r *vh.Rng, maxDepth int, ext bool, avoid avoidSet, focus string) *program {
 	topGoto := !avoid.topGoto
 	g := &gen{r: r, maxDepth: maxDepth, ext: ext, budget: 14 + r.Intn(22), avoid: avoid, feat: map[string]int{}}
 	g.frames = [][]string{nil}
@@ -1023,13 +1185,23 @@ func genProgram(r *vh.Rng, maxDepth int, ext bool, avoid avoidSet) *program {
 	if topGoto && r.Chance(1, 3) {
 		// backward goto to a label at function top level, driven by result variable v3 (excluded from assignments)
 		g.assignable = g.assignable[:nres-1]
-		topLbl = &gotoLbl{id: g.id(), counter: ref{"v3", 0, 3}, bound: 1 + r.Intn(3)}
+		topLbl = &gotoLbl{id: g.id(), counter: ref{"v3", 0, 3}, bound: 1 + r.Intn(3), fd: 1}
 		g.gotos = append(g.gotos, topLbl)
 		g.feat["goto-toplevel"]++
 	}
 	n := 2 + r.Intn(4)
 	for i := 0; i < n; i++ {
-		p, stop := g.stmt(1)
+		var p piece
+		stop := false
+		switch {
+		case focus == "deepjump" && r.Chance(3, 5):
+			p = g.deepJump(1)
+		case focus == "tswitch" && r.Chance(7, 10):
+			p, _ = g.typedSwitch(1)
+			g.usedExt = true
+		default:
+			p, stop = g.stmt(1)
+		}
 		ps = append(ps, p)
 		if stop {
 			break
